@@ -318,6 +318,7 @@ pub fn run(ctx: &Ctx) -> i32 {
             }
         }
         acc.add("valgrind_runs", n);
+        crate::c04::fuzz_stage(ctx, "yaml_reader", 300, "C17", &mut acc);
     }
     // ---- conservation invariant ----
     let g = |k: &str| totals.get(k).copied().unwrap_or(0);
